@@ -558,25 +558,33 @@ def dumpHint (h : DisplayHint) : J :=
 
 def dumpPropsDict (d : List (String × PropMeta)) : J := .obj (d.map (fun kv => (kv.1, dumpProp kv.2)))
 
+def dumpAxesOpt : Option (List Axis) → J
+  | none => .null
+  | some l => .arr (l.map dumpAxis)
+
+def dumpTrackOpt : Option (List (String × String)) → J
+  | none => .null
+  | some l => .obj (l.map (fun kv => (kv.1, .str kv.2)))
+
+def dumpRelatedOpt : Option (List RelatedObject) → J
+  | none => .null
+  | some l => .arr (l.map dumpRelated)
+
+def dumpHintOpt : Option DisplayHint → J
+  | none => .null
+  | some h => dumpHint h
+
 def dumpFields (m : Meta) : List (String × J) :=
   [("geff_version", .str m.geff_version),
    ("directed", .bool m.directed),
-   ("axes", match m.axes with
-            | none => .null
-            | some l => .arr (l.map dumpAxis)),
+   ("axes", dumpAxesOpt m.axes),
    ("node_props_metadata", dumpPropsDict m.node_props_metadata),
    ("edge_props_metadata", dumpPropsDict m.edge_props_metadata),
    ("sphere", optStrJ m.sphere),
    ("ellipsoid", optStrJ m.ellipsoid),
-   ("track_node_props", match m.track_node_props with
-                        | none => .null
-                        | some l => .obj (l.map (fun kv => (kv.1, .str kv.2)))),
-   ("related_objects", match m.related_objects with
-                       | none => .null
-                       | some l => .arr (l.map dumpRelated)),
-   ("display_hints", match m.display_hints with
-                     | none => .null
-                     | some h => dumpHint h),
+   ("track_node_props", dumpTrackOpt m.track_node_props),
+   ("related_objects", dumpRelatedOpt m.related_objects),
+   ("display_hints", dumpHintOpt m.display_hints),
    ("extra", .obj m.extra)]
 
 def dump (m : Meta) : J := .obj (dumpFields m)
